@@ -1,11 +1,11 @@
 (* C09 — the same data in different column layouts parses to the same row.
    Only property theorems here, each closed by [exact] and followed by Print Assumptions.
    Relations: Row/Encodes.v (EncNv = one cell, Enc = one slot, Encodes = a sheet row);
-   proofs: Row/ParseFold.v, Row/EncodesFacts.v, Row/FlowHeaderFacts.v, Row/EncodesExamples.v, Row/PaddedTypeFacts.v. *)
+   proofs: Row/ParseFold.v, Row/EncodesFacts.v, Row/FlowHeaderFacts.v, Row/EncodesExamples.v, Row/PaddedTypeFacts.v, Row/RawTextFacts.v (texts with backslashes that are not escape sequences). *)
 From Coq Require Import String List NArith ZArith Bool.
 From RPFT Require Import Base.Sexp Base.PyStr Base.Result Base.ODict Gen.Tables Cell.Cell Row.Ty Row.Layout Row.RowParse
   Row.RowUnparse Row.FlowRow Row.RowFacts Row.ParseFold Row.Encodes Row.EncodesFacts Row.FlowHeaderFacts
-  Row.HeaderFacts Row.StarFacts Row.ReorderFacts Row.EncodesExamples Row.PaddedTypeFacts
+  Row.HeaderFacts Row.StarFacts Row.ReorderFacts Row.EncodesExamples Row.PaddedTypeFacts Row.RawTextFacts Cell.CellFacts
   Cell.CellSession Row.RowSession Row.RowSessionFacts.
 Import ListNotations.
 
@@ -362,3 +362,87 @@ Example C09_sheet_nonvacuous :
   snd (rp_run (rp_init rmR) [cells_packed; cells_spread; cells_star]) = [Ok vR; Ok vR; Ok vR].
 Proof. exact sheet_nonvacuous. Qed.
 Print Assumptions C09_sheet_nonvacuous.
+
+(* ---- texts with backslashes that are NOT escape sequences (^\d+$, C:\temp): a cell that the parser SPLITS (packed list /
+   record cell, `*` column — hence the short flow headers from / condition / condition_var …) reads them exactly as a cell
+   that it does not split (f.1, m.a, edges.1.condition.value).
+   Len s e: e is a writing of s inside a split cell — separators and backslashes of s escaped, EXCEPT that a backslash
+   before an ordinary character may stand as it is; LenEnd: the same when nothing follows in the cell (a final backslash
+   may stand as it is too).  trimmed: no outer whitespace; str_ok: free of cleanse's temporary character, on a tree that
+   has one.  The escaped writing [escape s] is one of them (C09_escape_is_a_writing); a text without separator whose
+   backslashes all stand before ordinary characters is its own writing (C09_raw_text_is_its_own_writing). *)
+Theorem C09_escape_is_a_writing : forall s, Len s (escape s).
+Proof. exact len_escape. Qed.
+Print Assumptions C09_escape_is_a_writing.
+
+Theorem C09_raw_text_is_its_own_writing : forall s, raw_ok s = true -> Len s s.
+Proof. exact len_self. Qed.
+Print Assumptions C09_raw_text_is_its_own_writing.
+
+(* ONE text in a split cell (a one-element list, a record's first field, the single value of a `*` cell — the premise
+   [cell_parse (st_txt c) = Str s] of C09_asterisk_broadcast): read as the text *)
+Theorem C09_raw_cell_scalar : forall s e,
+  LenEnd s e -> str_ok e = true -> trimmed e = true -> cell_parse e = Str s.
+Proof. exact cell_parse_raw_scalar. Qed.
+Print Assumptions C09_raw_cell_scalar.
+
+(* the same cell text, split or not: ^\d+$ under `condition` (split) and under `edges.1.condition.value` (stripped only) *)
+Theorem C09_raw_cell_split_or_not : forall s,
+  raw_ok s = true -> str_ok s = true -> trimmed s = true -> cell_parse s = Str (strip s).
+Proof. exact cell_parse_raw_self. Qed.
+Print Assumptions C09_raw_cell_split_or_not.
+
+(* TWO texts joined by either separator *)
+Theorem C09_raw_cell_pair : forall sep a b ea eb,
+  sep = sep0 \/ sep = sep1 -> Len a ea -> LenEnd b eb -> eb <> [] ->
+  str_ok ea = true -> str_ok eb = true -> trimmed ea = true -> trimmed eb = true ->
+  cell_parse (ea ++ [sep] ++ eb) = Lst [Str a; Str b].
+Proof. exact cell_parse_raw_pair. Qed.
+Print Assumptions C09_raw_cell_pair.
+
+(* rows.  "a list given as f.1, f.2 or as one f cell with ;" (class RF: f: List[str] = []), for ALL texts a, b and all
+   their writings ea, eb *)
+Theorem C09_raw_list_packed_is_spread : forall sep a b ea eb,
+  sep = sep0 \/ sep = sep1 -> Len a ea -> LenEnd b eb -> eb <> [] ->
+  str_ok ea = true -> str_ok eb = true -> trimmed ea = true -> trimmed eb = true -> trimmed a = true -> trimmed b = true ->
+  parse_row rmF [(S_ "f", ea ++ [sep] ++ eb)] = Ok (rowF [a; b]) /\
+  parse_row rmF [(S_ "f.1", a); (S_ "f.2", b)] = Ok (rowF [a; b]).
+Proof. exact raw_list_packed_is_spread. Qed.
+Print Assumptions C09_raw_list_packed_is_spread.
+
+(* the SAME two cell texts under `f.1`, `f.2` and joined in one `f` cell *)
+Theorem C09_raw_list_same_texts : forall sep a b,
+  sep = sep0 \/ sep = sep1 -> raw_ok a = true -> raw_ok b = true -> b <> [] ->
+  str_ok a = true -> str_ok b = true -> trimmed a = true -> trimmed b = true ->
+  parse_row rmF [(S_ "f", a ++ [sep] ++ b)] = parse_row rmF [(S_ "f.1", a); (S_ "f.2", b)].
+Proof. exact raw_list_same_texts. Qed.
+Print Assumptions C09_raw_list_same_texts.
+
+Theorem C09_raw_list_scalar_is_spread : forall a ea,
+  LenEnd a ea -> a <> [] -> str_ok ea = true -> trimmed ea = true -> trimmed a = true ->
+  parse_row rmF [(S_ "f", ea)] = Ok (rowF [a]) /\ parse_row rmF [(S_ "f.1", a)] = Ok (rowF [a]).
+Proof. exact raw_list_scalar_is_spread. Qed.
+Print Assumptions C09_raw_list_scalar_is_spread.
+
+(* "a sub-record given as f.a, f.b or as one cell of positional entries" (class AB of C09_positional_is_spread_partial,
+   whose side condition on field names stays) *)
+Theorem C09_raw_record_positional_is_spread : forall a b ea eb,
+  Len a ea -> LenEnd b eb -> eb <> [] ->
+  str_ok ea = true -> str_ok eb = true -> trimmed ea = true -> trimmed eb = true -> trimmed a = true -> trimmed b = true ->
+  has_field fieldsAB a = false ->
+  parse_row rmAB [(S_ "m", ea ++ [sep0] ++ eb)] = Ok (rowAB a b) /\ parse_row rmAB (ab_spread a b) = Ok (rowAB a b).
+Proof. exact raw_record_positional_is_spread. Qed.
+Print Assumptions C09_raw_record_positional_is_spread.
+
+(* ^\d+$ and \w+ \w+ in one cell and in two; C:\temp\ written C:\temp\\ before the separator and C:\temp\ at the end *)
+Example C09_raw_texts_nonvacuous :
+  raw_ok t_digits = true /\ raw_ok t_words = true /\ trimmed t_digits = true /\ trimmed t_words = true /\
+  str_ok t_digits = true /\ str_ok t_words = true /\
+  parse_row rmF (f_packed sep1 t_digits t_words) = Ok (rowF [t_digits; t_words]) /\
+  parse_row rmF (f_spread t_digits t_words) = Ok (rowF [t_digits; t_words]) /\
+  Len t_path (S_ "C:\temp\\") /\ LenEnd t_path t_path /\ raw_ok t_path = false /\
+  parse_row rmF (f_packed sep0 (S_ "C:\temp\\") t_path) = Ok (rowF [t_path; t_path]) /\
+  cell_parse t_digits = Str t_digits /\
+  parse_row rmAB [(S_ "m", t_digits ++ [sep0] ++ t_path)] = Ok (rowAB t_digits t_path).
+Proof. exact raw_texts_nonvacuous. Qed.
+Print Assumptions C09_raw_texts_nonvacuous.
